@@ -128,7 +128,7 @@ func importNames(ps ...*pkg) map[string]bool {
 				if im.Name != nil {
 					name = im.Name.Name
 				}
-				if name != "state" && name != "client" {
+				if name != "state" && name != "client" && name != "logging" {
 					m[name] = true
 				}
 			}
@@ -137,10 +137,12 @@ func importNames(ps ...*pkg) map[string]bool {
 	return m
 }
 
-func buildGraph(cl, st *pkg) *cgraph {
+func buildGraph(cl, st, lg *pkg) *cgraph {
 	imports := importNames(cl, st)
 	g := &cgraph{nodes: map[string]*cnode{}, byShort: map[string][]*cnode{}, methods: map[string][]*cnode{}, edges: map[string]map[string]bool{}}
-	all := append(collectNodes(cl, "client"), collectNodes(st, "state")...)
+	// the logging package is part of every closure that reaches a function which logs: the shape fingerprints leave the
+	// logging statements out (they may come and go), but what a call of logging.X does is the library's own code
+	all := append(append(collectNodes(cl, "client"), collectNodes(st, "state")...), collectNodes(lg, "logging")...)
 	for _, n := range all {
 		g.nodes[n.name] = n
 		g.ordNames = append(g.ordNames, n.name)
@@ -223,7 +225,7 @@ func buildGraph(cl, st *pkg) *cgraph {
 			case *ast.CallExpr:
 				if se, ok := e.Fun.(*ast.SelectorExpr); ok {
 					if id, ok := se.X.(*ast.Ident); ok {
-						if id.Name == "state" || id.Name == "client" {
+						if id.Name == "state" || id.Name == "client" || id.Name == "logging" {
 							for _, t := range g.byShort[id.Name+"."+se.Sel.Name] {
 								add(t)
 							}
@@ -368,8 +370,8 @@ func propertyRoots() map[string][]string {
 	}
 }
 
-func factsClosure(cl, st *pkg, o *out) {
-	g := buildGraph(cl, st)
+func factsClosure(cl, st, lg *pkg, o *out) {
+	g := buildGraph(cl, st, lg)
 	roots := propertyRoots()
 	var ids []string
 	for id := range roots {
